@@ -18,6 +18,7 @@ package id
 
 import (
 	"context"
+	"sync"
 
 	json "github.com/bytedance/sonic"
 	"github.com/muyo/sno"
@@ -35,6 +36,10 @@ func GetSno() *Sno {
 type SnoGenerator struct {
 	*sno.Generator
 	tracer tracing.ITracer
+	// mu serialises draws: under heavy concurrent use the underlying
+	// generator hands out the same id twice when the sequence of a time
+	// unit is exhausted while other goroutines are drawing
+	mu sync.Mutex
 }
 
 func (g *Sno) NewIdGenerator(ctx context.Context, tracer tracing.ITracer) (result IGenerator, err error) {
@@ -81,6 +86,8 @@ type SnoId struct {
 }
 
 func (g *SnoGenerator) New() Id {
+	g.mu.Lock()
+	defer g.mu.Unlock()
 	return &SnoId{ID: g.Generator.New(0)}
 }
 
